@@ -172,4 +172,80 @@ theorem state_machine_agrees_with_source :
     type_of% BarterModel.KernelsAgree.DataSetSM.dataset_sm_agree :=
   BarterModel.KernelsAgree.DataSetSM.dataset_sm_agree
 
+/-! ## Review round 2 (audit/REVIEW-notes.md, section C17)
+
+`mean_in_range'` removes an unnecessary hypothesis (review C17-3). The two `…_boundary_witness`
+theorems answer review C17-1: every theorem of this file is about exact rationals, and
+`rust_decimal::Decimal` (96-bit mantissa, scale 0…28) cannot be the subject of a theorem over ℚ.
+**No Lean claim about `Decimal` is made below.** The witnesses only record, as kernel-checked facts
+about the *model's* exact values, two datasets whose inputs are ordinary `Decimal`s but whose exact
+whole-dataset statistics lie outside `Decimal`'s representable range, so that no implementation
+returning a `Decimal` can return them. What the real code does there was measured by the reviewer
+on /repo, not proved: `[0, 1e15]` panics with "Multiplication overflowed", and a cluster of
+28-significant-digit values gives a `std_dev` 1.3 % off. The correspondence run of `./check C17`
+samples values far inside the range (and compares division-derived fields to 1e-18 only), so the
+equalities of this file transfer to the code only there (`props/C17.py` ASSUMPTIONS). -/
+
+/-- The mean always lies within the range – for **every** dataset, the empty one included (review
+C17-3: the hypothesis `xs ≠ []` of `mean_in_range`, which is kept, is unnecessary: for `[]` mean,
+low and high are all `0`, as in `default()`). No hypothesis. -/
+theorem mean_in_range' (sqrtFn : Rat → Rat) (xs : List Rat) :
+    let s := Summary.run sqrtFn xs
+    s.dispersion.range.low ≤ s.mean ∧ s.mean ≤ s.dispersion.range.high := by
+  cases xs with
+  | nil => simp [Summary.run, Summary.default, Dispersion.default, Range.default]
+  | cons a as => exact mean_in_range sqrtFn (a :: as) (by simp)
+
+/-- The value of `rust_decimal::Decimal::MAX` (2⁹⁶ − 1, scale 0), as a plain rational literal.
+Only a number to compare the model's exact values with: nothing about `Decimal` is modelled. -/
+def decimalMax : Rat := 79228162514264337593543950335
+
+/-- The smallest positive `Decimal` (mantissa 1, scale 28), 10⁻²⁸, as a plain rational. -/
+def decimalMinPos : Rat := 1 / 10 ^ 28
+
+example : decimalMax = 2 ^ 96 - 1 := by decide +kernel
+
+/-- **Overflow boundary (review C17-1, first half; no claim about `Decimal`).** For the dataset
+`[0, 10¹⁵]` – two values that are ordinary `Decimal`s (integers far below 2⁹⁶) – the model's exact
+Welford value `M = Σ (x − mean)²` is 5·10²⁹ (equal to the whole-dataset sum of squared deviations,
+as `m_eq` says) and its exact population variance is 2.5·10²⁹; both EXCEED `Decimal::MAX`
+≈ 7.9·10²⁸. So the exact values the theorems `m_eq` / `variance_eq` speak about are not
+representable in the code's number type at all: the theorems hold for the model, and the code
+cannot return these values – on the real code the reviewer observed a panic "Multiplication
+overflowed" (`calculate_recurrence_relation_m`, algorithm.rs:16-23, multiplies `(10¹⁵ − 0)` by
+`(10¹⁵ − 5·10¹⁴)`). The model/implementation correspondence only samples values far below this
+boundary. Concrete, kernel-checked, no hypothesis. -/
+theorem decimal_overflow_boundary_witness :
+    (1000000000000000 : Rat) < decimalMax
+    ∧ (Summary.run id [0, 1000000000000000]).dispersion.recurrenceRelationM
+        = 500000000000000000000000000000
+    ∧ sqDev (total [0, 1000000000000000] / 2) [0, 1000000000000000]
+        = 500000000000000000000000000000
+    ∧ decimalMax < (Summary.run id [0, 1000000000000000]).dispersion.recurrenceRelationM
+    ∧ (Summary.run id [0, 1000000000000000]).dispersion.variance = 250000000000000000000000000000
+    ∧ decimalMax < (Summary.run id [0, 1000000000000000]).dispersion.variance := by
+  decide +kernel
+
+/-- A cluster of three 28-significant-digit values: `1`, `1 + 10⁻²⁷`, `1 + 2·10⁻²⁷`. -/
+def cluster28 : List Rat := [1, 1 + 1 / 10 ^ 27, 1 + 2 / 10 ^ 27]
+
+/-- **Underflow boundary (review C17-1, second half; no claim about `Decimal`).** The three
+values of `cluster28` are ordinary `Decimal`s (mantissa `10²⁷ + k < 2⁹⁶`, scale 27 ≤ 28). Their
+exact population variance in the model is `2/3 · 10⁻⁵⁴`: strictly positive (the values differ) but
+far BELOW the smallest positive `Decimal` 10⁻²⁸, so no `Decimal` other than `0` is within a factor
+10²⁵ of it – while the exact standard deviation (here with the drivers' `sqrtApprox`, at least
+8·10⁻²⁸) is itself above 10⁻²⁸. Hence "variance > 0 for non-constant data" and `std_dev_eq` are
+statements about the model's exact values which the code's number type cannot carry for
+such inputs; the reviewer measured on the real code that a 28-digit cluster gives a `std_dev`
+1.3 % off. Concrete, kernel-checked, no hypothesis. -/
+theorem decimal_underflow_boundary_witness :
+    cluster28 = [((10 ^ 27 + 0 : Nat) : Rat) / 10 ^ 27, ((10 ^ 27 + 1 : Nat) : Rat) / 10 ^ 27,
+        ((10 ^ 27 + 2 : Nat) : Rat) / 10 ^ 27]
+    ∧ (10 ^ 27 + 2 : Nat) < 2 ^ 96
+    ∧ (Summary.run id cluster28).dispersion.variance = 2 / (3 * 10 ^ 54)
+    ∧ 0 < (Summary.run id cluster28).dispersion.variance
+    ∧ (Summary.run id cluster28).dispersion.variance < decimalMinPos
+    ∧ 8 * decimalMinPos ≤ (Summary.run sqrtApprox cluster28).dispersion.stdDev := by
+  decide +kernel
+
 end BarterModel.Props.C17
